@@ -215,7 +215,7 @@ CHECKS["C08"] = dict(
         "iteration tag and starts from the given state (with C07: every returned state carries its iteration); both "
         "monitor kinds append exactly when totnit() % frequency == 0 with (totnit(), time, value of the trajectory state).",
    note=TB + "; proved over the reals: 'bit-identical' additionally assumes deterministic numpy/BLAS (DESIGN §5.6); step/rhs/"
-        "averages abstract (deterministic functions of their arguments).",
+        "averages abstract (deterministic functions of their arguments). The check also discharges the C06 leaves of the Jacobian cache it relies on (uses:C06/size(n=2,neq=1|2)/*: the cached Jacobian is the operator, calc_jacobian leaves self.residual unspecified, each implicit step recomputes it).",
    ref="§6 C08")
 
 CHECKS["C14"] = dict(
